@@ -18,5 +18,9 @@ os.unlink(out)
 missing = sorted(set(b["stable_pass"]) - passed)
 print("baseline: %d/%d stable tests pass (%d passed in total)" % (len(b["stable_pass"]) - len(missing), len(b["stable_pass"]), len(passed)))
 for m in missing[:40]: print("  MISSING", m)
-print(r.stdout.strip().splitlines()[-1] if r.stdout.strip() else "")
+try:
+    print(r.stdout.strip().splitlines()[-1] if r.stdout.strip() else "")
+    sys.stdout.flush()
+except BrokenPipeError:
+    os.dup2(os.open(os.devnull, os.O_WRONLY), sys.stdout.fileno())
 sys.exit(1 if missing else 0)
